@@ -217,7 +217,11 @@ def run(ctx):
             init = A.kids(vd)[-1] if A.kids(vd) else None
             init0 = init is not None and A.int_literal(init) == 0
             steps, others = [], []
+            seen_ids = set()
             for y in A.walk(usv.body(dpm)):
+                if y.get("id") in seen_ids:
+                    continue             # the body of a lambda is listed twice in the dump (closure method and expression)
+                seen_ids.add(y.get("id"))
                 if y.get("kind") == "UnaryOperator" and y.get("opcode") in ("++", "--") and A.ref_id(A.kids(y)[0]) == vid:
                     (steps if y.get("opcode") == "++" and S_contains(loop, y) else others).append(y)
                 elif y.get("kind") == "CompoundAssignOperator" and A.ref_id(A.kids(y)[0]) == vid:
